@@ -212,6 +212,7 @@ def st_seal_full():
                           C("fits", "self.tips.0 <= u128::MAX - 0x1_0000_0000_0000_0000_0000_0000_0000u128", note="C09 envelope: pending tips below 2^128 - 2^112")],
                 ensures=[C("det", "res.0 == spec_seal(self, action)", det=True),
                          C("rel", "seal_rel(self, action, res.0) && res.1 == action", "C06", "C05", "C17"),
+                         C("action_tips", "sealed_ok(SealedState(res.0, action))", "C08", "C05"),
                          C("noaction", "action is None ==> res.0.fee_multiplier == self.fee_multiplier && res.0.tips == self.tips", "C17", "C05"),
                          C("frame", "res.0.network == self.network && res.0.height == self.height && res.0.history == self.history && res.0.transactions == self.transactions && res.0.stakes == self.stakes && res.0.dosc_speed == self.dosc_speed", "C07", "C06"),
                          C("inv", "res.0.coins.wf() && spec_builtin_pools(res.0)", "C16", "C20")])
